@@ -9,6 +9,9 @@ CONSTANTS
   WriterFollowsOwnSCS = TRUE
   HsOrder = "serial"
   HsReadExact = TRUE
+  ScsSids = {0}
+  ReaderScsAnySid = TRUE
+  LazyFlushTypes = {}
 INVARIANTS NoDesync PrefixOk InFollowsOut AllDelivered HandshakeBytes HsExact NoByteLost SessionAfterHandshake
 PROPERTY AppendOnly
 CHECK_DEADLOCK FALSE
